@@ -35,7 +35,33 @@ DRIVERS = ("f", "py", "c", "fc", "cc")
 
 CXXFLAGS = ["-g", "-O0", "-std=c++11", "-fsanitize=address", "-fno-omit-frame-pointer", "-fPIC", "-w"]
 CFLAGS = ["-g", "-O0", "-std=c99", "-fsanitize=address", "-fno-omit-frame-pointer", "-w"]
-FFLAGS = ["-g", "-O0", "-cpp", "-ffree-form", "-fsanitize=address", "-w"]
+FFLAGS = ["-g", "-O0", "-cpp", "-ffree-form", "-fsanitize=address", "-fPIC", "-w"]
+
+# A second wrapped library in the same process (Fortran driver of the full C++ variants): another
+# name, another prefix, another destructor table.  Nothing of it is ever called; it is only *there*,
+# loaded first, the way two shroud-wrapped libraries meet in one application.
+COMPANION_YAML = """library: simtwo
+cxx_header: simlib.hpp
+format:
+  C_prefix: SIB_
+options:
+  debug: True
+  wrap_python: False
+  wrap_lua: False
+declarations:
+- decl: template<typename T> class Holder
+  cxx_template:
+  - instantiation: <int>
+  - instantiation: <double>
+  declarations:
+  - decl: Holder(int v)
+  - decl: ~Holder() +name(delete)
+  - decl: T get() const
+- decl: const std::string *strOwned(int n) +owner(caller)
+- decl: std::string strVal(int n)
+- decl: std::vector<int> vecRet(int n)
+- decl: int *arrNew(int n, int *len +intent(out)+hidden) +dimension(len)+owner(caller)
+"""
 
 
 def py_include():
@@ -205,6 +231,7 @@ class Build(object):
         self.errors = {}
         self.gen_files = []
         self.have = None  # subset variants: the wrapped declaration names
+        self.companion = False  # link the Fortran driver against a second wrapped library as well
 
     def defines(self):
         """-D flags for the drivers: which classes / helper types / ops this build has."""
@@ -252,6 +279,20 @@ class Build(object):
         if p.returncode != 0:
             self.errors["generate"] = (p.stdout + p.stderr)[-1500:]
             return False
+        if self.companion:
+            two = os.path.join(self.dir, "two")
+            os.makedirs(two, exist_ok=True)
+            shutil.copy(os.path.join(SUBJECT, "simlib.hpp"), two)
+            shutil.copy(os.path.join(SUBJECT, "simhook.h"), two)
+            with open(os.path.join(two, "simtwo.yaml"), "w") as fp:
+                fp.write(COMPANION_YAML)
+            code = ("import sys; sys.path.insert(0, %r); import shroud.main; "
+                    "sys.argv=['shroud','--outdir',%r,'--logdir',%r,%r]; shroud.main.main()"
+                    % (REPO, two, two, os.path.join(two, "simtwo.yaml")))
+            p = self.sh([PY, "-c", code], timeout=300)
+            if p.returncode != 0:
+                self.errors["generate companion"] = (p.stdout + p.stderr)[-1500:]
+                return False
         if self.have is not None:
             for name, lang, drv in (("drv_c.c", "c", "c"), ("drv_f.f90", "f", "f")):
                 with open(os.path.join(self.dir, name)) as fp:
@@ -367,7 +408,9 @@ class Build(object):
                 if p.returncode != 0:
                     errs["drv_f.f90"] = p.stderr[-1200:]
                     good = False
-            if good:
+            if good and self.companion:
+                good = self.link_with_companion(lib_objs, [f[:-2] + ".o" for f in ff], errs)
+            elif good:
                 p = self.sh(["gfortran", "-fsanitize=address"] + lib_objs + [f[:-2] + ".o" for f in ff] +
                             ["drv_f.o", "-lstdc++", "-o", "drv_f"], timeout=600)
                 if p.returncode != 0:
@@ -395,6 +438,36 @@ class Build(object):
             self.ok["py"] = good
         self.errors.update(errs)
         return self.ok
+
+    def link_with_companion(self, lib_objs, f_objs, errs):
+        """drv_f = driver + libsimtwo.so (the companion, first) + libsimone.so (the wrappers under
+        test) + libsimsubj.so (the one copy of the subject library and the allocator seam)."""
+        two = os.path.join(self.dir, "two")
+        steps = []
+        tcpp = sorted(f for f in os.listdir(two) if f.endswith(".cpp"))
+        tf = sorted(f for f in os.listdir(two) if f.endswith(".f"))
+        for f in tcpp:
+            steps.append(("two:" + f, ["g++"] + CXXFLAGS + ["-I" + two, "-c", os.path.join(two, f), "-o",
+                                                           os.path.join(two, f[:-4] + ".o")]))
+        for f in tf:
+            steps.append(("two:" + f, ["gfortran"] + FFLAGS + ["-J" + two, "-c", os.path.join(two, f), "-o",
+                                                              os.path.join(two, f[:-2] + ".o")]))
+        subj = ["simlib.o", "simhook.o"]
+        wrappers = [o for o in lib_objs if o not in subj]
+        steps.append(("libsimsubj", ["g++", "-shared", "-fsanitize=address"] + subj + ["-o", "libsimsubj.so"]))
+        steps.append(("libsimtwo", ["g++", "-shared", "-fsanitize=address"] +
+                      [os.path.join(two, f[:-4] + ".o") for f in tcpp] + [os.path.join(two, f[:-2] + ".o") for f in tf] +
+                      ["-L.", "-lsimsubj", "-lgfortran", "-o", "libsimtwo.so"]))
+        steps.append(("libsimone", ["g++", "-shared", "-fsanitize=address"] + wrappers + f_objs +
+                      ["-L.", "-lsimsubj", "-lgfortran", "-o", "libsimone.so"]))
+        steps.append(("link drv_f", ["gfortran", "-fsanitize=address", "drv_f.o", "-L.", "-lsimtwo", "-lsimone",
+                                     "-lsimsubj", "-Wl,-rpath," + self.dir, "-lstdc++", "-o", "drv_f"]))
+        for name, argv in steps:
+            p = self.sh(argv, timeout=600)
+            if p.returncode != 0:
+                errs[name] = p.stderr[-1200:]
+                return False
+        return True
 
     def command(self, driver, opsfile):
         env = dict(os.environ)
@@ -681,6 +754,8 @@ class C06Engine(object):
             text, meta = make_variant(rng, self.base_yaml, index)
             d = os.path.join(campaign.scratch_dir(), "c06-v%d" % index)
             b = Build(d, text, CXX_DRIVERS, "v%d" % index)
+            b.companion = True
+            meta = dict(meta, companion="simtwo (SIB_) loaded first in the Fortran driver")
         b.meta = meta
         if b.generate():
             b.compile(self.args.workers)
@@ -981,6 +1056,7 @@ class C06Engine(object):
         b.meta = rf.get("variant_meta")
         if (b.meta or {}).get("subset") is not None:
             b.have = set(b.meta["subset"])
+        b.companion = bool((b.meta or {}).get("companion"))
         if not b.generate() or not b.compile(self.args.workers).get(rf["driver"]):
             print("HARNESS-ERROR: build failed: %s" % json.dumps(b.errors)[:1500])
             return report.EXIT_HARNESS
